@@ -314,7 +314,7 @@ end item
 section values
 
 /-- `dquote` output is balanced for every separator that `dquote` quotes -/
-theorem dquote_balanced (sep : Char) (hq : inClass Gen.quotable sep = true) (hs : sep ≠ DQ)
+theorem dquote_balanced_of_noDQ (sep : Char) (hq : inClass Gen.quotable sep = true) (hs : sep ≠ DQ)
     (v : Str) (hv : DQ ∉ v) : Balanced sep (dquote v) := by
   rw [dquote_of_noDQ v hv]
   split
@@ -327,7 +327,7 @@ theorem dquote_balanced (sep : Char) (hq : inClass Gen.quotable sep = true) (hs 
     exact ⟨sep, hm, hq⟩
 
 /-- the same without the assumption on `v`: the substitution removes every double quote -/
-theorem dquote_balanced' (sep : Char) (hq : inClass Gen.quotable sep = true) (hs : sep ≠ DQ)
+theorem dquote_balanced_any (sep : Char) (hq : inClass Gen.quotable sep = true) (hs : sep ≠ DQ)
     (v : Str) : Balanced sep (dquote v) := by
   have hv : DQ ∉ rep1 DQ ['\''] v := rep1_noDQ _ (by decide) v
   rw [dquote_def]
@@ -425,13 +425,13 @@ theorem parse_map_dquote : ∀ (xs : List Str), (∀ x ∈ xs, ValueOk x) →
     rw [List.map_cons, parse_dquote x (h x (by simp)), ih (fun y hy => h y (List.mem_cons_of_mem _ hy))]
     simp
 
-theorem param_vals_roundtrip (xs : List Str) (hd : ∀ x ∈ xs, ValueOk x) (hq : qJoin xs ≠ []) :
+theorem parse_qJoin (xs : List Str) (hd : ∀ x ∈ xs, ValueOk x) (hq : qJoin xs ≠ []) :
     parseParamVals false (qSplit (qJoin xs) ',') = some xs := by
   unfold qJoin at *
   rw [qSplit_join ',' (by decide) _ hq, parse_map_dquote xs hd]
   intro s hs
   obtain ⟨x, hx, rfl⟩ := List.mem_map.mp hs
-  exact dquote_balanced ',' quotable_comma (by decide) x (hd x hx).1
+  exact dquote_balanced_of_noDQ ',' quotable_comma (by decide) x (hd x hx).1
 
 /-- the serialised list is empty only for the list holding one empty string -/
 theorem qJoin_eq_nil (xs : List Str) (hne : xs ≠ []) (h : qJoin xs = []) : xs = [[]] := by
@@ -620,5 +620,210 @@ theorem upper_idem (k : Str) : upper (upper k) = upper k := by
   simp [upper, List.map_map, Function.comp_def, upperC_idem']
 
 end upper
+
+/-! ## the parameter map: domain, canonical form, round trip -/
+section params
+
+/-- a value of the domain: a string, or a non-empty list of strings, all `ValueOk` -/
+def PValOk : PVal → Prop
+  | .one x => ValueOk x
+  | .many xs => xs ≠ [] ∧ ∀ x ∈ xs, ValueOk x
+
+instance (v : PVal) : Decidable (PValOk v) := by
+  cases v <;> unfold PValOk <;> infer_instance
+
+/-- what a `Parameters` object built from strings and lists of strings looks like:
+    distinct upper-cased NAME keys, values from the value domain -/
+def ParamDomain (m : Params) : Prop :=
+  (m.map Prod.fst).Nodup ∧ ∀ kv ∈ m, (validToken kv.1 = true ∧ upper kv.1 = kv.1) ∧ PValOk kv.2
+
+instance (m : Params) : Decidable (ParamDomain m) := by unfold ParamDomain; infer_instance
+
+/-- what the parser stores for a value: a one-element list comes back as its element -/
+def canonVal : PVal → PVal
+  | .many [x] => .one x
+  | v => v
+
+def canon (m : Params) : Params := (sortByKey m).map (fun kv => (kv.1, canonVal kv.2))
+
+theorem paramDomain_perm {m m' : Params} (hp : m'.Perm m) (hd : ParamDomain m) : ParamDomain m' :=
+  ⟨((hp.map Prod.fst).nodup_iff).mpr hd.1, fun kv hkv => hd.2 kv (hp.mem_iff.mp hkv)⟩
+
+theorem paramDomain_sort (m : Params) (hd : ParamDomain m) : ParamDomain (sortByKey m) :=
+  paramDomain_perm (sortByKey_perm m) hd
+
+theorem put_fresh (p : Params) (k : Str) (v : PVal) (h : k ∉ p.map Prod.fst) :
+    Params.put p k v = p ++ [(k, v)] := by
+  unfold Params.put
+  rw [if_neg]
+  intro hany
+  rw [List.any_eq_true] at hany
+  obtain ⟨kv, hkv, he⟩ := hany
+  exact h (List.mem_map.mpr ⟨kv, hkv, by simpa using he⟩)
+
+/-- the text of one item -/
+def itemText (kv : Str × PVal) : Str := upper kv.1 ++ ['='] ++ paramValue kv.2
+
+theorem paramValue_balanced (sep : Char) (hq : inClass Gen.quotable sep = true) (hs : sep ≠ DQ)
+    (hc : Balanced sep [',']) (v : PVal) : Balanced sep (paramValue v) := by
+  cases v with
+  | one x => exact dquote_balanced_any sep hq hs x
+  | many xs =>
+    unfold paramValue qJoin
+    refine balanced_joinWith sep ',' hc _ ?_
+    intro s hs'
+    obtain ⟨x, _, rfl⟩ := List.mem_map.mp hs'
+    exact dquote_balanced_any sep hq hs x
+
+/-- a whole item `KEY=value` holds no `;` outside quotes -/
+theorem item_balanced (kv : Str × PVal) (hk : validToken kv.1 = true) (hu : upper kv.1 = kv.1) :
+    Balanced ';' (itemText kv) := by
+  unfold itemText
+  rw [hu]
+  refine ((balanced_plain ';' kv.1 (validToken_noDQ _ hk) (validToken_noSep _ hk)).append
+    (by decide)).append ?_
+  exact paramValue_balanced ';' quotable_semi (by decide) (by decide) kv.2
+
+theorem item_ne_nil (kv : Str × PVal) : itemText kv ≠ [] := by
+  unfold itemText; simp
+
+theorem parseParam_item (kv : Str × PVal) (hk : validToken kv.1 = true) (hu : upper kv.1 = kv.1)
+    (hv : PValOk kv.2) : parseParam false (itemText kv) = some (kv.1, canonVal kv.2) := by
+  obtain ⟨k, v⟩ := kv
+  simp only at hk hu hv ⊢
+  unfold parseParam itemText
+  simp only [hu]
+  have e : k ++ ['='] ++ paramValue v = k ++ '=' :: paramValue v := by simp
+  rw [e, qSplit_key_val k _ hk]
+  simp only [hk, Bool.not_true, Bool.false_eq_true, if_false, hu]
+  cases v with
+  | one x =>
+    have hv : ValueOk x := hv
+    simp only [paramValue]
+    by_cases he : dquote x = []
+    · have : x = [] := dquote_eq_nil x he
+      subst this
+      rw [he]
+      simp [qSplit, qSplitGo, parseParamVals, canonVal]
+    · have := parse_qJoin [x] (by simpa using hv) (by simpa [qJoin, joinWith] using he)
+      simp only [qJoin, List.map_cons, List.map_nil, joinWith] at this
+      rw [this]
+      simp [canonVal]
+  | many xs =>
+    have hv : xs ≠ [] ∧ ∀ x ∈ xs, ValueOk x := hv
+    simp only [paramValue]
+    by_cases he : qJoin xs = []
+    · have : xs = [[]] := qJoin_eq_nil xs hv.1 he
+      subst this
+      rw [he]
+      simp [qSplit, qSplitGo, parseParamVals, canonVal]
+    · rw [parse_qJoin xs hv.2 he]
+      match xs, hv.1 with
+      | [x], _ => simp [canonVal]
+      | x :: y :: r, _ => simp [canonVal]
+
+/-- the loop of `from_ical` over the items of a map with fresh distinct keys appends them in order;
+    `F` is the loop body, characterised by `hF` -/
+theorem fold_items (F : Option Params → Str → Option Params)
+    (hF : ∀ ps param k v, parseParam false param = some (k, v) → F (some ps) param = some (Params.put ps k v)) :
+    ∀ (s : Params) (acc : Params), ParamDomain s →
+    (∀ k ∈ s.map Prod.fst, k ∉ acc.map Prod.fst) →
+    (s.map itemText).foldl F (some acc) = some (acc ++ s.map (fun kv => (kv.1, canonVal kv.2))) := by
+  intro s
+  induction s with
+  | nil => intro acc _ _; simp
+  | cons kv r ih =>
+    intro acc hd hf
+    have hkv := hd.2 kv (by simp)
+    have hnd := hd.1
+    rw [List.map_cons, List.nodup_cons] at hnd
+    rw [List.map_cons, List.foldl_cons, hF acc _ _ _ (parseParam_item kv hkv.1.1 hkv.1.2 hkv.2)]
+    rw [put_fresh acc kv.1 _ (hf kv.1 (by simp))]
+    rw [ih _ ⟨hnd.2, fun x hx => hd.2 x (List.mem_cons_of_mem _ hx)⟩]
+    · simp
+    · intro k hk hacc
+      rw [List.map_append, List.mem_append] at hacc
+      rcases hacc with h | h
+      · exact hf k (by simp [hk]) h
+      · simp only [List.map_cons, List.map_nil, List.mem_singleton] at h
+        exact hnd.1 (h ▸ hk)
+
+theorem joinWith_ne_nil (sep : Str) (x : Str) (r : List Str) (hx : x ≠ []) : joinWith sep (x :: r) ≠ [] := by
+  cases r with
+  | nil => simpa [joinWith] using hx
+  | cons y r' => simp [joinWith, hx]
+
+theorem fromIcal_toIcal (m : Params) (hd : ParamDomain m) :
+    paramsFromIcal (paramsToIcal m true) false = some (canon m) := by
+  have hs := paramDomain_sort m hd
+  unfold paramsFromIcal paramsToIcal canon
+  simp only [if_true]
+  generalize sortByKey m = s at hs
+  have ht : (s.map fun kv => upper kv.1 ++ ['='] ++ paramValue kv.2) = s.map itemText := rfl
+  rw [ht]
+  cases s with
+  | nil => simp [joinWith, qSplit, qSplitGo]
+  | cons kv r =>
+    rw [qSplit_join ';' (by decide) _ (by
+        rw [List.map_cons]; exact joinWith_ne_nil _ _ _ (item_ne_nil kv)) (by
+        intro t ht
+        obtain ⟨x, hx, rfl⟩ := List.mem_map.mp ht
+        exact item_balanced x (hs.2 x hx).1.1 (hs.2 x hx).1.2)]
+    rw [fold_items _ (by intro ps param k v h; simp only [h]) (kv :: r) [] hs (by simp)]
+    simp
+
+end params
+
+
+/-! ## reading the result -/
+section read
+
+theorem get?_of_mem : ∀ (p : Params), (p.map Prod.fst).Nodup → ∀ (k : Str) (v : PVal), (k, v) ∈ p →
+    p.get? k = some v := by
+  intro p
+  induction p with
+  | nil => intro _ k v h; simp at h
+  | cons x r ih =>
+    intro hn k v h
+    rw [List.map_cons, List.nodup_cons] at hn
+    unfold Params.get?
+    rw [List.find?_cons]
+    rcases List.mem_cons.mp h with e | e
+    · subst e; simp
+    · have hne : x.1 ≠ k := by
+        intro e'
+        exact hn.1 (List.mem_map.mpr ⟨(k, v), e, e'.symm⟩)
+      have : (x.1 == k) = false := by simpa using hne
+      simp only [this]
+      exact ih hn.2 k v e
+
+theorem canon_keys (m : Params) : (canon m).map Prod.fst = (sortByKey m).map Prod.fst := by
+  simp [canon, List.map_map, Function.comp_def]
+
+theorem canon_nodup (m : Params) (hd : ParamDomain m) : ((canon m).map Prod.fst).Nodup := by
+  rw [canon_keys]; exact (paramDomain_sort m hd).1
+
+theorem canon_sorted (m : Params) : KeySorted (canon m) := by
+  unfold KeySorted; rw [canon_keys]; exact sortByKey_sorted m
+
+theorem canon_mem (m : Params) (kv : Str × PVal) (h : kv ∈ m) : (kv.1, canonVal kv.2) ∈ canon m :=
+  List.mem_map.mpr ⟨kv, (sortByKey_perm m).mem_iff.mpr h, rfl⟩
+
+theorem canon_length (m : Params) : (canon m).length = m.length := by
+  simp [canon, (sortByKey_perm m).length_eq]
+
+theorem canon_get? (m : Params) (hd : ParamDomain m) (kv : Str × PVal) (h : kv ∈ m) :
+    (canon m).get? kv.1 = some (canonVal kv.2) :=
+  get?_of_mem _ (canon_nodup m hd) _ _ (canon_mem m kv h)
+
+end read
+
+/-- a concrete map for the non-vacuity checks of C08 -/
+def sampleParams : Params :=
+  [(['X', '-', 'B'], .many [['a', ',', 'b'], ['c']]),
+   (['C', 'N'], .one ['x', ',', ';', ':', ' ', 'y']),
+   (['E'], .one []),
+   (['A', '.', '1'], .many [['o', 'n', 'e']]),
+   (['Z', '_'], .many [[], []])]
 
 end ICal
